@@ -138,11 +138,28 @@ def rule_a(ctx):
                "the dequeue position advances with the same successor function as the enqueue position, once per pop", [ds])
         closed = list(pop.aggregates(adt="channel::queue::PopError", variant="Closed"))
         okc = False
+        def load_of(o, field):
+            return isinstance(o, tuple) and o[0] == "call" and o[2].endswith("Atomic::load") and atomics.receiver_field(pop, Site(pop, o[1], TERM)) == field
+
+        def is_enq(side):
+            return len(side) == 1 and load_of(next(iter(side)), "enqueue_pos")
+
+        def is_deq_or_closed(side):
+            # (the loaded dequeue position, unmasked) | self.closed_channel_mask
+            if len(side) != 1:
+                return False
+            o = next(iter(side))
+            if not (isinstance(o, tuple) and o[0] == "bin" and o[1] == "BitOr"):
+                return False
+            a, b_ = o[2], o[3]
+            for x, y in ((a, b_), (b_, a)):
+                if load_of(x, "dequeue_pos") and origin_proj_names(y)[1][-1:] == [("f", "closed_channel_mask")]:
+                    return True
+            return False
         for e in closed:
             for c in pop.conditions(e):
                 if c.kind == "cmp" and c.data[0] == "==":
-                    sides = list(c.data[1] | c.data[2])
-                    if any(x[0] == "call" and x[2].endswith("Atomic::load") for x in sides) and any(x[0] == "bin" and x[1] == "BitOr" for x in sides):
+                    if (is_enq(c.data[1]) and is_deq_or_closed(c.data[2])) or (is_enq(c.data[2]) and is_deq_or_closed(c.data[1])):
                         okc = True
         ctx.ob("pop|closed-only-when-drained", okc, "Closed is reported only if the enqueue position equals dequeue position | closed flag (no push in flight)", closed)
     # ---- MessageBorrow::drop releases the slot with the stamp computed by pop
